@@ -16,7 +16,7 @@ func init() {
 	register(&Driver{
 		ID:        "C13",
 		Technique: "exhaustive enumeration of runner sets (<=3 runners over three ordering classes x five Order values, lazy or eager) x each choice of failing runner x component backgrounds (chain, cycle, lazy dependency) x iteration orders, each a real start; event-log oracle",
-		Rule:      "programs = runner sequences of length <=3 (thorough <=4) over 11 symbols x {all eager, all lazy (thorough: every lazy mask)} x failing runner in {none, 1st, 2nd, 3rd} x 3 backgrounds x 2 base orders; non-trivial = >=2 runners or a failing runner",
+		Rule:      "programs = runner sequences of length <=3 (thorough <=4) over 11 symbols x {all eager, all lazy (thorough: every lazy mask)} x failing runner in {none, 1st, 2nd, 3rd} x 3 backgrounds x 2 base orders; non-trivial = >=2 runners or a failing runner. Families added in later rounds (look-ups inside Init, retries after an abandoned attempt, user extension points at every Order, several containers, odd names / types / values) are listed per part in this file and described in MANIFEST.json (level_claimed.text) and DESIGN §7",
 		Assumptions: []string{
 			"runners with equal rank (same class and Order, or both unordered) may run in any relative order; when one of them fails the others of equal rank may or may not have run",
 			"more than three runners are not covered",
